@@ -62,6 +62,24 @@ def gen_desc(rng):
         desc["structs"].append({"name": "M", "fields": fields})
         desc["impls"].append({"protocol": "can", "type": "M", "name": "M", "fields": [("id", rng.randrange(2048)), ("device", "ecu")], "signals": sigs})
         return desc, target, False
+    if rng.random() < 0.12:
+        # several CAN bindings on two or three buses, exactly one of them oversize - on the bus seen first, in the middle or last:
+        # one unfit message anywhere makes the whole generation fail
+        nb = rng.choice([2, 3])
+        bad = rng.randrange(nb)
+        target = rng.choice([65, 66, 72, 76, 80])
+        desc["structs"].append({"name": "In", "fields": [{"name": "x", "id": 0, "type": ("u", 8)}]})
+        for q in range(nb):
+            total = target if q == bad else rng.choice([8, 24, 40, 64])
+            fields, left, j = [], total, 0
+            while left > 0:
+                w = min(left, rng.choice([8, 16, 32, 12]))
+                fields.append({"name": f"f{j}", "id": j, "type": ("u", w)}); left -= w; j += 1
+            nm = "M" if q == bad else f"N{q}"
+            desc["structs"].append({"name": nm, "fields": fields})
+            desc["impls"].append({"protocol": "can", "type": nm, "name": nm, "signals": [],
+                                  "fields": [("id", 100 + q), ("device", "ecu"), ("bus", ["powertrain", "chassis", "body"][q])]})
+        return desc, target, False
     target = rng.choice([57, 60, 63, 64, 65, 66, 72, 80, 100, 128, 200, rng.randint(57, 200)])
     inner_fields = [{"name": "x", "id": 0, "type": ("u", rng.randint(1, 16))}, {"name": "y", "id": 1, "type": ("i", rng.randint(1, 16))}]
     desc["structs"].append({"name": "In", "fields": inner_fields})
@@ -135,12 +153,13 @@ def run(chk):
             desc, target, has_var = gen_desc(chk.rng)
             text = gen_schema.render(desc)
             fcp = serde_run.parse(text).unwrap()
-            im = next(fcp.get_matching_impls("can"))
-            try:
-                pieces = make_encoder("packed", fcp, PackedEncoderContext().with_unroll_arrays(True)).generate(im)
-                total = pieces[-1].bitstart + pieces[-1].bitlength
-            except Exception:
-                pieces, total = None, None
+            total = 0
+            for im in fcp.get_matching_impls("can"):          # the largest binding decides (None: one has no static layout)
+                try:
+                    pieces = make_encoder("packed", fcp, PackedEncoderContext().with_unroll_arrays(True)).generate(im)
+                    total = None if total is None else max(total, pieces[-1].bitstart + pieces[-1].bitlength)
+                except Exception:
+                    pieces, total = None, None
             must_reject = has_var or total is None or total > 64
             chk.hist("total_bits", "variable" if total is None else ("<=64" if total <= 64 else ">64"))
             # ---- DBC
